@@ -1,6 +1,8 @@
 (* line protocol (one session per line):
      <prestamp 0|1> <override 0|1> <cmax>[T] <k1> <k2> <r1> <r2> [<later> ...]
    cmax followed by T: the client has a timeout
+   override 0|1 followed by s: the repaired reading of the query's reply (Negotiate.strict_query:
+            ERROR_MESSAGE/Success is an unexpected response, not a 1.0.1-only reader)
    k1 / k2: number of KEEPALIVEs the reader sends while the query / the switch is unanswered
             (acknowledged at once); written <k>+<d> when d more are sent by a reader that does not
             read from then until the client has acted on the answer that follows them
@@ -74,6 +76,8 @@ let () =
         try
           match String.split_on_char ' ' line with
           | ps :: ov :: cmax :: k1 :: k2 :: r1 :: r2 :: ls ->
+            let strict = String.length ov > 1 && ov.[1] = 's' in
+            let ov = String.sub ov 0 1 in
             let cfg = { prestamp = (ps = "1"); writer_overrides = (ov = "1") } in
             let rec nat_of_int i = if i <= 0 then O else S (nat_of_int (i - 1)) in
             let kd s = match String.split_on_char '+' s with
@@ -85,7 +89,7 @@ let () =
             let has_timeout = n > 0 && cmax.[n - 1] = 'T' in
             let cmax = if has_timeout then String.sub cmax 0 (n - 1) else cmax in
             let (waits, (r, ps)) = session_t cfg has_timeout (ni cmax) k1 d1 k2 d2
-                (timed r1) (timed r2) (List.map later ls) in
+                (let (a, r) = timed r1 in (a, if strict then strict_query r else r)) (timed r2) (List.map later ls) in
             let lf = ps.p_out in
             Printf.printf "%s %d %s %s\n"
               (if waits then "waits" else match r.n_outcome with Proceeds -> "proceeds" | Fails -> "fails")
